@@ -1,5 +1,6 @@
 SPECIFICATION TSpec
-CONSTANTS Opts = {"lr", "glr", "slr"}
+CONSTANTS Files = {"root", "imp", "leaf"}
+  Opts = {"lr", "glr", "slr"}
   Unresolved = {"glr", "cli"}
   LRKinds = {"lr", "slr"}
   MaxSteps = 10
